@@ -250,7 +250,7 @@ theorem compilePattern_single {R : Type} (x : Compile.Ext R) (fl : Flags) (L : I
       · simp [hb, hs, htilde]
   have hlim : ¬ (0 < L ∧ L < ((0 + 1 : Nat) : Int)) := by omega
   unfold Compile.compilePattern Compile.compileCore
-  simp only [Compile.runPatterns, hnorm, hexp, Compile.runItems, Compile.runPieces, hlim, if_false,
+  simp only [Compile.startLimit_zero, Compile.runPatterns, hnorm, hexp, Compile.runItems, Compile.runPieces, hlim, if_false,
     Compile.admitPiece, Compile.pnPolicy, hneg, List.not_mem_nil, if_true, Bool.false_eq_true,
     List.nil_append, Compile.finishPN, List.isEmpty_nil, List.isEmpty_cons, Bool.not_true, Bool.false_and,
     Bool.not_false, Bool.true_and]
@@ -264,7 +264,7 @@ theorem compilePattern_no_items {R : Type} (x : Compile.Ext R) (fl : Flags) (L :
     unfold Compile.expand Compile.expandBraces
     simp [hb, hbrace]
   unfold Compile.compilePattern Compile.compileCore
-  simp only [Compile.runPatterns, hnorm, hexp, Compile.runItems, Bool.false_eq_true, if_false,
+  simp only [Compile.startLimit_zero, Compile.runPatterns, hnorm, hexp, Compile.runItems, Bool.false_eq_true, if_false,
     Compile.finishPN, List.isEmpty_nil, Bool.not_true, Bool.false_and, if_false]
 
 /-- The components of the list layer that are NOT modelled (supplied from outside). -/
